@@ -361,13 +361,14 @@ package lang
 //@   check none
 //@   requires p != nil
 //@   at call (*privateFunctions).get#1 assert p.Scope.Id != ShellProcess.Id && $isPrivate(name, p.FileRef)
-//@   at call (*Aliases).Get#1 assert !(p.Scope.Id != ShellProcess.Id && $isPrivate(name, p.FileRef)) && $isAlias(name) && !parsedAlias && p.Parent.Name.name != "alias"
-//@   at call (*MurexFuncs).get#1 assert !(p.Scope.Id != ShellProcess.Id && $isPrivate(name, p.FileRef)) && imp($isAlias(name), parsedAlias || p.Parent.Name.name == "alias") && $isFunc(name)
-//@   at call dynamic:GoFunctions[]#1 assert !(p.Scope.Id != ShellProcess.Id && $isPrivate(name, p.FileRef)) && imp($isAlias(name), parsedAlias || p.Parent.Name.name == "alias") && !$isFunc(name)
+//@   at call (*Aliases).Get#1 assert !(p.Scope.Id != ShellProcess.Id && $isPrivate(name, p.FileRef)) && $isAlias(name) && !calledbefore("(*Aliases).Get") && p.Parent.Name.name != "alias"
+//@   at call (*MurexFuncs).get#1 assert !(p.Scope.Id != ShellProcess.Id && $isPrivate(name, p.FileRef)) && imp($isAlias(name), called("(*Aliases).Get") || p.Parent.Name.name == "alias") && $isFunc(name)
+//@   at call dynamic:GoFunctions[]#1 assert !(p.Scope.Id != ShellProcess.Id && $isPrivate(name, p.FileRef)) && imp($isAlias(name), called("(*Aliases).Get") || p.Parent.Name.name == "alias") && !$isFunc(name)
 //@   at call (*Fork).Execute#2 assert err == nil
-//@   loop 1 step imp(old(parsedAlias), parsedAlias)
-// an expansion always sets the expanded-once guard, whatever the alias consists of
-//@   loop 1 step imp(calledsince("(*Aliases).Get"), parsedAlias)
+// "aliases expand once" is stated over call events (an alias is looked up at most once per command, and a
+// function or builtin is only preferred over an alias of the same name after that one expansion); the
+// guard variable is only a proof aid, so a change of its representation leaves the contract decidable
+//@   loop 1 invariant called("(*Aliases).Get") == parsedAlias
 // the body that runs is the one found, in a fork that carries the DEFINING module's identity (so the
 // body's own private functions resolve in the module that defined it, not in the caller's)
 //@   at call (*Fork).Execute#1 assert arg0 == ret("(*Process).Fork#1") && arg1 == ret("(*privateFunctions).get#1").Block && ret("(*Process).Fork#1").FileRef == ret("(*privateFunctions).get#1").FileRef
